@@ -82,6 +82,111 @@ def sentences(rows, rnd, n, maxops=5):
     return sorted(out)
 
 
+POOL = ['<', '<=', '<>', '<<', '=', '==', '>', '>=', '>>', '-', '->', '--', '+', '++', '!', '!=']
+MSPELL = {sp: i + 1 for i, sp in enumerate(POOL)}
+
+
+def gen_multichar(rnd, n):
+    """character-level tables whose spellings are prefixes of one another, inside a row and across rows (no postfix
+    rows: a postfix and an infix operator matching at one place are tried in that order, not by length)"""
+    out, seen = [], set()
+    while len(out) < n:
+        rows, used = [], {'pre': set(), 'in': set()}
+        fam = rnd.choice(['<', '=', '>', '-', '+', '!', None, None])      # concentrate on one family of overlapping spellings
+        pool = [sp for sp in POOL if fam is None or sp[0] == fam or rnd.random() < 0.25]
+        for _ in range(rnd.randrange(2, 5)):
+            a = rnd.choice(['left', 'left', 'right', 'infix', 'prefix'])
+            kind = 'pre' if a == 'prefix' else 'in'
+            cands = [c for c in pool if c not in used[kind]]
+            if not cands:
+                continue
+            names = rnd.sample(cands, min(len(cands), rnd.choice([1, 2, 2, 3])))
+            used[kind] |= set(names)
+            rows.append((a, names))
+        if len([r for r in rows if r[0] != 'prefix']) < 2 or str(rows) in seen:
+            continue
+        seen.add(str(rows))
+        out.append(rows)
+    return out
+
+
+def row_match(names, text, pos):
+    """ordered choice inside a row"""
+    for sp in names:
+        if text.startswith(sp, pos):
+            return sp
+    return None
+
+
+def longest_of_rows(rows, kinds, text, pos):
+    """SPEC: among operators of different rows matching at the same place the longest match wins"""
+    best = None
+    for a, names in rows:
+        if a in kinds:
+            sp = row_match(names, text, pos)
+            if sp is not None and (best is None or len(sp) > len(best)):
+                best = sp
+    return best
+
+
+def tokenise(rows, text):
+    toks, offs, pos, want_operand = [], [], 0, True
+    while pos < len(text):
+        if want_operand:
+            sp = longest_of_rows(rows, ('prefix',), text, pos)
+            if sp is not None:
+                toks.append(['o', MSPELL[sp]]); offs.append(pos); pos += len(sp)
+            elif text[pos].isdigit():
+                toks.append(['d', int(text[pos])]); offs.append(pos); pos += 1; want_operand = False
+            else:
+                break
+        else:
+            sp = longest_of_rows(rows, ('left', 'right', 'infix'), text, pos)
+            if sp is None:
+                break
+            toks.append(['o', MSPELL[sp]]); offs.append(pos); pos += len(sp); want_operand = True
+    offs.append(pos)
+    return toks, offs
+
+
+def multichar_inputs(rows, rnd, n):
+    pre = [c for a, names in rows if a == 'prefix' for c in names]
+    inf = [c for a, names in rows if a != 'prefix' for c in names]
+    out = {'', '1'}
+    for _ in range(n * 3):
+        s = ''
+        k = rnd.randrange(1, 5)
+        for i in range(k + 1):
+            while pre and rnd.random() < 0.25:
+                s += rnd.choice(pre)
+            s += rnd.choice('12')
+            if i < k:
+                s += rnd.choice(inf)
+        if rnd.random() < 0.15:
+            s += rnd.choice(inf)
+        if rnd.random() < 0.1:
+            s = s[:rnd.randrange(len(s))] + rnd.choice('<>=-+!') + s[rnd.randrange(len(s)):]
+        out.add(s)
+        if len(out) >= n:
+            break
+    return sorted(out)
+
+
+def mconv(v):
+    """like conv, for spellings of several characters"""
+    if isinstance(v, list) and v and v[0] == 'str':
+        c = ''.join(chr(x) for x in v[1])
+        return f'(d {c})' if c.isdigit() else None
+    if isinstance(v, list) and v and v[0] == 'node':
+        k, fs = v[1], v[2]
+        op = lambda sv: MSPELL[''.join(chr(x) for x in sv[1])]
+        if k == 0:
+            return f'(inf {mconv(fs[0])} {op(fs[1])} {mconv(fs[2])})'
+        if k == 1:
+            return f'(pre {op(fs[0])} {mconv(fs[1])})'
+    return None
+
+
 def tok_sx(text):
     return [['d', int(c)] if c.isdigit() else ['o', SPELL[c]] for c in text]
 
@@ -161,7 +266,17 @@ def run(R):
         jobs.append((gid, d, tx, {'stratum': 'char-level'}))
         info[gid] = (None, 'char')
         gid += 1
+    # character-level tables with overlapping spellings of several characters: tokenised by the property's rule
+    # (ordered inside a row, longest across rows), then judged by the token-level precedence reference
+    multi = {}
+    for rows in gen_multichar(rnd, 60 if quick else 1200):
+        d = 'start = ' + render_table(rows, '/\\d/') + '\n'
+        jobs.append((gid, d, multichar_inputs(rows, rnd, 120 if quick else 400), {'stratum': 'multichar'}))
+        info[gid] = (None, 'multi')
+        multi[gid] = rows
+        gid += 1
     R.extra['tables'] = len(tables)
+    R.extra['multichar_tables'] = len(multi)
     for i in range(0, len(jobs), 300):
         recs = gramrun.run_grammars(jobs[i:i + 300], chunk=6)
         gramrun.compare(R, recs, 'optable-exec', lambda r, c, g, w: 'parse-outcome')
@@ -190,6 +305,33 @@ def run(R):
                 tb = [[a, [SPELL[c] for c in names]] for a, names in rows]
                 reqs.append(core.sx(['optable', tb, [tok_sx(t) for t in texts]]))
                 meta.append(r)
+        # longest-spelling stratum
+        mreqs, mmeta = [], []
+        for r in recs:
+            if r['gid'] in multi and r.get('model') is not None:
+                rows = multi[r['gid']]
+                tb = [[a, [MSPELL[c] for c in names]] for a, names in rows]
+                tk = [tokenise(rows, c[0]) for c in r['cases']]
+                mreqs.append(core.sx(['optable', tb, [t for t, _ in tk]]))
+                mmeta.append((r, tk))
+        for (r, tk), o in zip(mmeta, core.run_driver(mreqs, raw=True)):
+            for (text, rxt, entry, pos, full, ix, ip), (toks, offs), mo in zip(r['cases'], tk, o.split('|')):
+                loop_s, pratt_s = mo.split('\t')
+                if pratt_s != 'none':
+                    tree, endtok = pratt_s[1:-1].rsplit(' ', 1)
+                    pratt_s = f'({tree} {offs[int(endtok)]})'
+                if ix.startswith('(done true'):
+                    val, end = ix[len('(done true '):-1].rsplit(' ', 1)
+                    got = f'({mconv(core.parse_sx(val))} {end})'
+                elif ix.startswith('(done false'):
+                    got = 'none'
+                else:
+                    got = ix
+                R.count('longest-spelling', (r['desc'], text), nontrivial=got != 'none')
+                if got != pratt_s:
+                    R.counterexample('longest-spelling', 'longest-operator-across-rows', {'grammar': r['desc'], 'text': text, 'tokens': toks}, pratt_s, got)
+                else:
+                    R.traces += 1
         for r, o in zip(meta, core.run_driver(reqs, raw=True)):
             for (text, rxt, entry, pos, full, ix, ip), mo in zip(r['cases'], o.split('|')):
                 loop_s, pratt_s = mo.split('\t')
